@@ -516,7 +516,7 @@ fn convert_intensity(p: &mut Point) {
 struct Range {
     min: f64,
     max: f64,
-    inv_range: f64,
+    half_range: f64,
 }
 
 impl Range {
@@ -562,16 +562,23 @@ impl Range {
     }
 
     fn from_min_max(min: f64, max: f64) -> Result<Self> {
-        let range = max - min;
-        if range < 0.0 {
-            Error::invalid(format!("Found invalid range: min={min}, max={max}"))?;
+        // Work with halved values to avoid overflows for very big ranges.
+        // Empty, reversed or undefined (NaN, infinite) ranges are degenerated
+        // and will normalize all values to zero.
+        let half_range = max * 0.5 - min * 0.5;
+        if half_range > 0.0 && half_range.is_finite() {
+            Ok(Self {
+                min,
+                max,
+                half_range,
+            })
+        } else {
+            Ok(Self {
+                min: 0.0,
+                max: 0.0,
+                half_range: 0.0,
+            })
         }
-        let inv_range = 1.0 / range;
-        Ok(Self {
-            min,
-            max,
-            inv_range,
-        })
     }
 
     fn intensity_from_pointcloud(pc: &PointCloud) -> Result<Option<Self>> {
@@ -667,9 +674,13 @@ impl Range {
 
     #[inline]
     fn normalize(&self, value: f64) -> f32 {
-        let clamped = value.clamp(self.min, self.max);
-        let normalized = (clamped - self.min) * self.inv_range;
-        normalized as f32
+        if self.half_range > 0.0 {
+            let clamped = value.clamp(self.min, self.max);
+            let normalized = (clamped * 0.5 - self.min * 0.5) / self.half_range;
+            normalized as f32
+        } else {
+            0.0
+        }
     }
 }
 
